@@ -19,6 +19,9 @@ def run(tier, replay=None):
     c.model("LimiterImpl", "LimiterImpl_locked.cfg", required_actions=("rst2", "inc", "rd"))
     r = c.model("LimiterImpl", "LimiterImpl_unlocked.cfg", expect="violation", expect_violated=("NoConflict",), coverage=False)
     c.extra["design_counterexample_unlocked_EndTime"] = r.status
+    if tier == "thorough":
+        # unbounded: the oracle machine's invariants are inductive for any set of addresses, any quota/interval, all instants
+        c.proofs(["limiter_tlaps", "limiter_apalache_init", "limiter_apalache_step", "limiter_apalache_reset"])
     # (R) generator
     g = c.model("LimiterGen", f"LimiterGen_{tier}.cfg", workers=1, coverage=False)
     seqs = vlib.tlc_printed_json(g, "GEN")
